@@ -30,7 +30,7 @@ def one(cand):
         shutil.rmtree(scr, ignore_errors=True)
 
 
-cands = sorted(d for d in glob.glob(os.path.join(SRC, "R*", "p*")) + glob.glob(os.path.join(SRC, "R*_p*")) if os.path.isdir(d))
+cands = sorted(d for d in glob.glob(os.path.join(SRC, "R*", "p*")) + glob.glob(os.path.join(SRC, "*_p*")) if os.path.isdir(d))
 out = {}
 with cf.ThreadPoolExecutor(max_workers=8) as ex:
     for cand, r in ex.map(one, cands):
